@@ -44,7 +44,7 @@ Qed.
 Lemma step_length s o : length (nodes (fst (step s o))) = length (nodes s).
 Proof.
   destruct (quiet_op o) eqn:Q; [apply (step_quiet s o 0 Q)|].
-  destruct o as [n|h g|h1 h2 g|h t|h ip c]; try discriminate.
+  destruct o as [n|h g|h1 h2 g|h t|h ip c|n mq|n ow k]; try discriminate.
   - unfold step. destruct (Nat.ltb _ _); auto. unfold op_new.
     destruct (Nat.leb _ _); auto. destruct (add_register _) as [[nd1 r]|]; auto. cbn [fst nodes]. apply upd_length.
   - unfold step, op_send. destruct (find_handle s h) as [[vi q]|]; auto.
@@ -57,6 +57,12 @@ Proof.
       * rewrite step_not_ok_same; auto. intros v. rewrite E. discriminate.
       * rewrite step_not_ok_same; auto. intros v. rewrite E. discriminate.
     + unfold step, op_meas. rewrite F. reflexivity.
+  - apply (step_newreg_hn s n mq 0).
+  - destruct (snd (step s (ONewInReg n ow k))) as [v| | |kk] eqn:E.
+    + apply (step_new_inreg_hn s n ow k v 0 E).
+    + rewrite step_not_ok_same; auto. intros v. rewrite E. discriminate.
+    + rewrite step_not_ok_same; auto. intros v. rewrite E. discriminate.
+    + rewrite step_not_ok_same; auto. intros v. rewrite E. discriminate.
 Qed.
 
 Lemma run_length ops : forall s, length (nodes (run s ops)) = length (nodes s).
